@@ -298,10 +298,12 @@ def _determinism(rep, thorough):
         for off in offsets:
             envs.append((s, off))
     procs = []
-    for s, off in envs:
+    tzs = ["UTC0", "JST-9", "EST5"]  # the process time zone is part of the environment a run must not depend on
+    for k_, (s, off) in enumerate(envs):
         env = dict(os.environ)
         env["PYTHONHASHSEED"] = s
         env["C14_CLOCK_OFFSET"] = str(off)
+        env["TZ"] = tzs[k_ % len(tzs)]
         env["PYTHONPATH"] = core.REPO + ":" + core.VERIF
         procs.append((s, off, subprocess.Popen([sys.executable, child], env=env, stdout=subprocess.PIPE, stderr=subprocess.PIPE)))
     outs = []
